@@ -293,9 +293,9 @@ theorem run_freed (st : St) (hf : st.freed = true) : ∀ es, st.run es = st := b
 theorem run_append (st : St) (a b : List Event) : st.run (a ++ b) = (st.run a).run b := by
   unfold St.run; rw [List.foldl_append]
 
-def td1 (st : St) : St := st.dropHolders (st.holders.filter fun h => isAnyObs h.kind)
-def td2 (st : St) : St := (td1 st).dropHolders ((td1 st).holders.filter fun h => isNode h.kind)
-def td3 (st : St) : St := (td2 st).dropHolders ((td2 st).holders.filter fun h => isAsync h.kind)
+def td1 (st : St) : St := st.releaseHolders (st.holders.filter fun h => isAnyObs h.kind)
+def td2 (st : St) : St := (td1 st).releaseHolders ((td1 st).holders.filter fun h => isNode h.kind)
+def td3 (st : St) : St := (td2 st).releaseHolders ((td2 st).holders.filter fun h => isAsync h.kind)
 
 def td4 (st : St) : St := (td3 st).eps.foldl St.freeEndpoint (td3 st)
 def tdEnd (st : St) : St :=
@@ -317,7 +317,7 @@ theorem teardown_state_empty {st : St} (h : Reachable st) (hf : st.freed = false
     (st.step .freeContext).1.partials = [] := by
   have hI := reachable_inv h
   have h3 : Inv (td3 st) :=
-    Inv.closed.dropHolders (Inv.closed.dropHolders (Inv.closed.dropHolders hI _) _) _
+    Inv.closed.releaseHolders (Inv.closed.releaseHolders (Inv.closed.releaseHolders hI _) _) _
   have h4 : Inv (td4 st) := (freeEndpoints_spec (td3 st).eps (td3 st) h3).1
   obtain ⟨hs, hh⟩ : (td4 st).sessions = [] ∧ (td4 st).holders = [] := freeEndpoints_empty h3
   have h5 : Inv (tdEnd st) := Inv.closed.teardownEnd _ h4
@@ -819,11 +819,37 @@ example : let st := st0.run [.rx pA .plain, .callHome pA, .endCallHome pA]
 /-- the peer's next datagram gets a FRESH session, and the whole ledger is accepted after teardown -/
 example : let st := st0.run [.rx pA .plain, .callHome pA, .endCallHome pA, .rx pA .plain, .freeContext]
     st.events = [.new 8, .handed 8, .new 9, .del 9] ∧ ledgerOk st.ledger = true := by decide
-/-- D16: while an observation refers to the session the application does not end it; after the deregistration it does -/
+/-- D16 lifted: the application releases its call-home reference while an observation still refers to the session — the
+    session lives on as a CLIENT session with the observation's reference; the peer's Observe deregistration then lets the
+    LAST holder go from inside the receive path: the session is freed when the datagram has been dealt with (`handed`, no
+    session-deleted event), the table is empty and no holder is left -/
 example : let st := st0.run [.rx pA (.obsReg 0 0 0), .callHome pA, .endCallHome pA]
-    st.sessions.map (fun s => (s.ref, s.client)) = [(2, true)] := by decide
-example : (st0.run [.rx pA (.obsReg 0 0 0), .callHome pA, .endCallHome pA, .rx pA (.obsDereg 0 0 0), .endCallHome pA]).sessions = [] := by
-  decide
+    st.sessions.map (fun s => (s.ref, s.client)) = [(1, true)] ∧ st.holders.map (·.kind) = [.obs 0 0 0 0] := by decide
+example : let st := st0.run [.rx pA (.obsReg 0 0 0), .callHome pA, .endCallHome pA, .rx pA (.obsDereg 0 0 0)]
+    st.sessions = [] ∧ st.holders = [] ∧ st.events = [.new 8, .handed 8] ∧ st.ledger.count (.free 8) = 1 := by decide
+/-- … the same with the last holder being: the observation cancelled by a Reset of its notification, a queued ping
+    answered by an ACK / given up after the last retransmission, a deferred response being sent, the application's own
+    coap_free_async / coap_session_release, the deletion of the resource, the teardown -/
+example : let st := st0.run [.rx pA (.obsReg 0 0 0), .callHome pA, .endCallHome pA, .changed 0, .io, .noteRst pA 0]
+    st.sessions = [] ∧ st.holders = [] ∧ st.events = [.new 8, .handed 8] := by decide
+example : let st := st0.run [.rx pA .plain, .ping pA, .callHome pA, .endCallHome pA, .ack pA false]
+    st.sessions = [] ∧ st.holders = [] ∧ st.events = [.new 8, .handed 8] := by decide
+example : let st := st0.run [.rx pA .plain, .ping pA, .callHome pA, .endCallHome pA, .advance 2000, .io, .advance 4000, .io,
+      .advance 8000, .io, .advance 16000, .io, .advance 32000, .io]
+    st.sessions = [] ∧ st.holders = [] ∧ st.events = [.new 8, .handed 8] := by decide
+example : let st := st0.run [.rx pA (.slow 40 5), .callHome pA, .endCallHome pA, .advance 40, .io]
+    st.sessions = [] ∧ st.holders = [] ∧ st.events = [.new 8, .handed 8] := by decide
+example : let st := st0.run [.rx pA .async, .callHome pA, .endCallHome pA, .asyncFree pA]
+    st.sessions = [] ∧ st.holders = [] ∧ st.events = [.new 8, .handed 8] := by decide
+example : let st := st0.run [.rx pA .plain, .appRef pA, .callHome pA, .endCallHome pA, .appRelease pA]
+    st.sessions = [] ∧ st.holders = [] ∧ st.events = [.new 8, .handed 8] := by decide
+example : let st := st0.run [.rx pA (.obsReg 0 0 0), .callHome pA, .endCallHome pA, .delResource 0]
+    st.sessions = [] ∧ st.holders = [] ∧ st.events = [.new 8, .handed 8] := by decide
+example : let st := st0.run [.rx pA (.obsReg 0 0 0), .callHome pA, .endCallHome pA, .freeContext]
+    st.sessions = [] ∧ st.events = [.new 8, .handed 8] ∧ ledgerOk st.ledger = true := by decide
+/-- D17: coap_session_disconnected on a client session the application holds no reference on is skipped -/
+example : ((st0.run [.rx pA (.obsReg 0 0 0), .callHome pA, .endCallHome pA]).step (.disconnect pA)).2 = .skip ∧
+    ((st0.run [.rx pA (.obsReg 0 0 0), .callHome pA]).step (.disconnect pA)).2 = .ok := by decide
 /-- a call-home session is not reclaimed by the session timeout; at teardown it is deleted like every session of the table;
     a second coap_session_set_type_client, a ping and a coap_send on it are refused -/
 example : let st := st0.run [.rx pA .plain, .callHome pA, .callHome pA, .ping pA, .sendCon pA, .advance 400000, .io]
